@@ -308,3 +308,36 @@ def _imp(top_patterns, flags, string, offset, allow_empty=True, ord=ord, chr=chr
 
 
 _relib._internal_match_patterns = _imp
+
+
+# ---- other str subclasses that must stay symbolic: chameleon.utils.Markup ------------------------
+def symbolic_str_subclass(real_cls, graft_names=()):
+    """Returns (SymClass, factory) modelling ``real_cls(str_value)`` for a symbolic str: the proxy reports
+    ``real_cls`` as its type and carries the real methods named in ``graft_names``."""
+    class Sym(LazyIntSymbolicStr):
+        def __ch_pytype__(self):
+            return real_cls
+
+        def __ch_realize__(self):
+            return real_cls(LazyIntSymbolicStr.__ch_realize__(self))
+
+        def __hash__(self):
+            return _orig_str_hash(LazyIntSymbolicStr.__ch_realize__(self))
+    for n in graft_names:
+        setattr(Sym, n, real_cls.__dict__[n])
+    Sym.__name__ = 'Sym' + real_cls.__name__
+
+    def factory(value=''):
+        with NoTracing():
+            if isinstance(value, LazyIntSymbolicStr):
+                return Sym(value._codepoints)
+            if isinstance(value, AnySymbolicStr):
+                value = realize(value)
+            return real_cls(value)
+    return Sym, factory
+
+
+import chameleon.utils as _cu  # noqa: E402
+
+SymMarkup, _markup_factory = symbolic_str_subclass(_cu.Markup, ('__html__',))
+register_patch(_cu.Markup, _markup_factory)
